@@ -110,7 +110,7 @@ def generate():
     # memory orders come from SlotFutex call sites: record the order argument passed at each call
     def order_args(body, callee):
         out = []
-        for m in re.finditer(r"(?<![\w])" + callee + r"\s*(?:<[^;(){}]*?>)?\s*\(", strip_comments(body)):
+        for m in re.finditer(callee + r"\s*(?:<[^;(){}]*?>)?\s*\(", strip_comments(body)):
             args, _ = common_call_args(strip_comments(body), m.end() - 1)
             mo = re.findall(r"memory_order_(\w+)", args)
             out.append(ORD[mo[-1]] if mo else "none")
@@ -227,6 +227,27 @@ def generate():
     _need(r"if\s*\(local\.next_page < local\.buffer\.end\(\)\)\s*\{\s*return \*local\.next_page\+\+;\s*\}\s*_upstream->allocate\(local\.buffer\.data\(\),\s*_batch_size\);\s*local\.next_page = local\.buffer\.begin\(\) \+ 1;\s*return \*local\.buffer\.data\(\);",
           ba, "BatchPageAllocator::allocate shape")
     items.append(nat_def("batchShapeChecked", 1))
+    # counter update relative to the forwarded call: Counting counts BEFORE, PageHeap AFTER
+    def count_pos(body, callee, what):
+        b = strip_comments(body)
+        i, j = b.find("_allocate_page_num <<"), b.find(callee)
+        if i < 0 or j < 0:
+            raise ExtractError(what + ": counter update / forwarded call not found")
+        return 1 if i < j else 0
+    for nm, nth in (("allocate", 0), ("allocate", 1), ("deallocate", 0), ("deallocate", 1)):
+        if count_pos(pf("CountingPageAllocator", nm, nth), "_upstream->" + nm, "Counting " + nm) != 1:
+            raise ExtractError("CountingPageAllocator::%s no longer counts before forwarding" % nm)
+    items.append(nat_def("countingCountsBefore", 1))
+    for nm in ("allocate", "deallocate"):
+        if count_pos(pf("PageHeap", nm), "_cached_allocator." + nm, "PageHeap " + nm) != 0:
+            raise ExtractError("PageHeap::%s no longer counts after forwarding" % nm)
+    items.append(nat_def("heapCountsAfter", 1))
+    _need(r"_allocate_page_num << num;", strip_comments(pf("PageHeap", "allocate")), "PageHeap::allocate count")
+    _need(r"_allocate_page_num << -num;", strip_comments(pf("PageHeap", "deallocate")), "PageHeap::deallocate count")
+    _need(r"_allocate_page_num << num;", strip_comments(pf("CountingPageAllocator", "allocate", 1)), "Counting::allocate count")
+    _need(r"_allocate_page_num << -num;", strip_comments(pf("CountingPageAllocator", "deallocate", 1)), "Counting::deallocate count")
+    _need(r"::std::max<ssize_t>\(0,\s*_allocate_page_num\.value\(\)\)", strip_comments(pf("CountingPageAllocator", "allocated_page_num")), "allocated_page_num clamp")
+    items.append(nat_def("countDeltaChecked", 1))
     ph = strip_comments(pf("PageHeap", "PageHeap", 0))
     m = _need(r"set_free_page_capacity\((\d+)\)", ph, "PageHeap default capacity")
     items.append(nat_def("pageHeapDefaultCapacity", int(m.group(1))))
@@ -254,7 +275,7 @@ def generate():
     pu = strip_comments(of("push", 0))
     m = _need(r"_free_objects\.template push<([^>]*)>\(", pu, "pool push flags")
     items.append("def poolPushFlags : List Bool := %s" % _flags(m.group(1)))
-    _need(r"_object_recycler\(\*object\);\s*if\s*\(_object_creator\)\s*\{\s*if\s*\(\s*(?:__builtin_expect\s*\(\s*)?\(?\s*_capacity <= _free_objects\.size\(\)", pu, "pool push gate")
+    _need(r"_object_recycler\(\*object\);\s*if\s*\(_object_creator\)\s*\{\s*if\s*\([^{};]*?_capacity <= _free_objects\.size\(\)[^{};]*?\)\s*\{\s*return;", pu, "pool push gate")
     rc = strip_comments(of("reserve_and_clear"))
     m = _need(r"_free_objects\.reserve_and_clear\(capacity \* (\d+)\)", rc, "pool queue capacity factor")
     items.append(nat_def("poolQueueFactor", int(m.group(1))))
